@@ -24,6 +24,7 @@ pub fn check(tier: Tier) -> Check {
         Part::new("C02/values", json!({}), 0, 120),
     ];
     Check {
+        also_rel: false,
         property: "C02",
         level: "exploration",
         rule: "every server packet type x subsets of the properties legal for it (CONNACK: quick = all subsets of size <=3 in every order and >=15 in identity/reverse/rotated order, thorough = all 2^17 subsets x 3 orders; others: all subsets) x repeated user properties with duplicate keys x every legal reason code x short forms (PUBACK family 2/3/>=4, AUTH 0, DISCONNECT 0/1) x packet identifiers {1,127,128,255,256,16383,16384,65535} and subscription identifiers up to 268435455 (counters preset by the hook) x payload sizes crossing the 512/1024-byte buffer steps x boundary string lengths; read back through ConnectRsp/ConnectError/AuthRsp/SubscribeRsp/UnsubscribeRsp/PublishData/Puback-Pubrec-PubcompError/Disconnected accessors; distinct_nontrivial = distinct packets whose values were read back".into(),
